@@ -22,6 +22,14 @@ def claimed():
 
 
 SUBDIR = "seeded"
+SNAP = VERIF      # the checker that is run: a snapshot of sa/ + check.py taken at start, so that sa/ may be edited meanwhile
+
+
+def snapshot():
+    global SNAP
+    SNAP = tempfile.mkdtemp(prefix="verif-snap-", dir="/tmp")
+    subprocess.check_call(["rsync", "-a", "--exclude", "__pycache__", os.path.join(VERIF, "sa"), os.path.join(VERIF, "check.py"),
+                           os.path.join(VERIF, "known_findings.txt"), os.path.join(VERIF, "properties.jsonl"), SNAP + "/"])
 
 
 def run_one(sid, checks, tier):
@@ -39,7 +47,7 @@ def run_one(sid, checks, tier):
         env = dict(os.environ, VERIF_REPO=dst, VERIF_EVIDENCE_DIR=os.path.join(tmp, "evidence"))
         os.makedirs(env["VERIF_EVIDENCE_DIR"])
         for c in checks:
-            p = subprocess.run([PY, os.path.join(VERIF, "check.py"), c, "--tier", tier], env=env, capture_output=True, text=True, cwd=VERIF)
+            p = subprocess.run([PY, os.path.join(SNAP, "check.py"), c, "--tier", tier], env=env, capture_output=True, text=True, cwd=SNAP)
             rules = sorted(set(re.findall(r"^\s+rule (\w+) in", p.stdout, re.M)))
             out[c] = {"exit": p.returncode, "rules": rules}
             if p.returncode == 2:
@@ -66,6 +74,7 @@ def main(argv):
         else:
             ids.append(a)
     have = claimed()
+    snapshot()
     if not ids:
         ids = sorted(d for d in os.listdir(os.path.join(VERIF, SUBDIR)) if os.path.isdir(os.path.join(VERIF, SUBDIR, d)))
     jobs = []
@@ -105,6 +114,7 @@ def main(argv):
                 meta.pop("analysis_error_in", None)
             json.dump(meta, open(mp, "w"), indent=1)
             open(mp, "a").write("\n")
+    shutil.rmtree(SNAP, ignore_errors=True)
     mpath = os.path.join(VERIF, SUBDIR, "MATRIX.json")
     matrix = json.load(open(mpath)) if os.path.exists(mpath) else {}
     for sid, out in results.items():
